@@ -34,7 +34,74 @@ def model_inputs(model, ctx):
         if isinstance(v, str):
             v = z3_unescape(v)
         out[name] = v
+    obs = {}
+    for name, val in getattr(ctx, "observe", {}).items():
+        obs[name] = eval_under(model, val)
+    if obs:
+        out["__observed__"] = obs
     return out
+
+
+def eval_under(model, val):
+    """Concrete value of an engine value (python or symbolic, lists/dicts thereof) under a model."""
+    from .core import Sym
+    if isinstance(val, Sym):
+        v = model_value(model, val.t)
+        return z3_unescape(v) if isinstance(v, str) else v
+    if isinstance(val, z3.ExprRef):
+        v = model_value(model, val)
+        return z3_unescape(v) if isinstance(v, str) else v
+    if isinstance(val, (list, tuple)):
+        return [eval_under(model, x) for x in val]
+    if isinstance(val, dict):
+        return {k: eval_under(model, x) for k, x in val.items()}
+    if isinstance(val, bytes):
+        return val.decode("latin-1")
+    if val is None or isinstance(val, (bool, int, float, str)):
+        return val
+    return repr(val)
+
+
+def realism_axioms(terms):
+    """Axioms tying the uninterpreted int()/float() models to canonical decimal strings, so that
+    counter-models and path witnesses are inputs CPython agrees on.  Only ever added to
+    satisfiability queries whose model is going to be replayed (never to a proof)."""
+    from .strings import canon_int_re
+    seen = {}
+    todo = list(terms)
+    while todo:
+        t = todo.pop()
+        if t.get_id() in seen:
+            continue
+        seen[t.get_id()] = t
+        todo.extend(t.children())
+    ax = []
+    args = {}
+    for t in seen.values():
+        if z3.is_app(t) and t.decl().name() in ("int_ok", "int_val") and t.num_args() == 1:
+            args[t.arg(0).get_id()] = t.arg(0)
+    okf = z3.Function("int_ok", z3.StringSort(), z3.BoolSort())
+    valf = z3.Function("int_val", z3.StringSort(), z3.IntSort())
+    for a in args.values():
+        neg = z3.PrefixOf(z3.StringVal("-"), a)
+        mag = z3.If(neg, z3.SubString(a, 1, z3.Length(a) - 1), a)
+        ax.append(okf(a) == z3.InRe(a, canon_int_re()))
+        ax.append(z3.Implies(okf(a), valf(a) == z3.If(neg, -z3.StrToInt(mag), z3.StrToInt(mag))))
+        ax.append(z3.Length(a) <= 12)
+    return ax
+
+
+def realistic_model(pcs, extra, timeout_ms=4000):
+    """A model of pcs+extra that also satisfies the realism axioms, or None."""
+    ax = realism_axioms(list(pcs) + list(extra))
+    s = z3.Solver()
+    s.set("timeout", timeout_ms)
+    s.add(*pcs)
+    s.add(*extra)
+    s.add(*ax)
+    if s.check() == z3.sat:
+        return s.model()
+    return None
 
 
 class VC:
@@ -129,6 +196,10 @@ def run_task(task_name, harness, cfg_factory, repo=None, timeout_ms=10000, max_p
             vc = VC(name, pid, v.status, v.backend, v.secs, detail=v.detail)
             res.solver_s += v.secs
             if v.status == "refuted":
+                g0 = z3.BoolVal(False) if isinstance(cond, bool) else _t(cond)
+                rm = realistic_model(pcs, [z3.Not(g0)])
+                if rm is not None:
+                    v.model = rm
                 if v.model is not None:
                     vc.model = model_inputs(v.model, ctx)
                 # known-finding classes: is the refutation covered, and is the residue unsat?
@@ -168,13 +239,10 @@ def run_task(task_name, harness, cfg_factory, repo=None, timeout_ms=10000, max_p
             res.vcs.append(vc)
         if want_cover and outside is None:
             # reachability of the path: a model of the path condition (cover query)
-            s = z3.Solver()
-            s.set("timeout", 2000)
-            s.add(*ctx.pc)
-            r = s.check()
-            cov = {"path": pid, "decisions": len(ctx.decisions), "sat": str(r)}
-            if r == z3.sat:
-                cov["inputs"] = model_inputs(s.model(), ctx)
+            rm = realistic_model(ctx.pc, [], timeout_ms=2000)
+            cov = {"path": pid, "decisions": len(ctx.decisions), "sat": "sat" if rm is not None else "no-realistic-model"}
+            if rm is not None:
+                cov["inputs"] = model_inputs(rm, ctx)
             cov["notes"] = list(ctx.notes)
             res.covers.append(cov)
     res.wall = time.time() - t0
